@@ -139,7 +139,9 @@ def floatOps : FOps Float where
   pos := fun x => x > 0
 
 def showF (x : Float) : String :=
-  if x.isFinite then s!"f:{(x * 4096.0).toInt64}" else "f:nonfinite"
+  if !x.isFinite then "f:nonfinite"
+  else if (x * 4096.0).abs < 4.0e18 then s!"f:{(x * 4096.0).toInt64}"
+  else if x < 0 then "f:-big" else "f:big"   -- beyond int64 after scaling: only the sign is printed (the C++ side prints the same)
 
 def parseEnvF (s : String) : PEnv Float :=
   let items := (s.splitOn " ").filterMap fun it =>
